@@ -92,3 +92,71 @@ Proof.
   rewrite lor_shift10 by lia.
   rewrite !Z.mod_small by lia. lia.
 Qed.
+
+(* ------------------------------------------------------------------------------------------ *)
+(* the reader: dispatch switch of tockenizer::next, escape switch of parse_string, byte tests     *)
+(* (coq/gen/Gen_json_tok.v, regenerated from src/json.cpp by checks/C11.py)                       *)
+(* ------------------------------------------------------------------------------------------ *)
+From CppcmsV Require Import C11.Proofs3 C11.TokClass gen.Gen_json_tok.
+
+Lemma link_tokclass b : b < 256 -> g_json_tokclass (Z.of_N b) = Z.of_N (tok_class b).
+Proof.
+  intros H. apply Z.eqb_eq.
+  apply (sweep256 (fun b => Z.eqb (g_json_tokclass (Z.of_N b)) (Z.of_N (tok_class b)))); [vm_compute; reflexivity|exact H].
+Qed.
+Lemma link_kw b : b < 256 -> zs2ns (g_json_kw (Z.of_N b)) = kw_tail b.
+Proof.
+  intros H. apply leqb_eq.
+  apply (sweep256 (fun b => leqb (zs2ns (g_json_kw (Z.of_N b))) (kw_tail b))); [vm_compute; reflexivity|exact H].
+Qed.
+(* -3 = the byte itself, -2 = the \u path, -1 = rejected *)
+Definition unesc_code (b : N) : Z :=
+  match simple_esc b with
+  | Some x => if x =? b then (-3)%Z else Z.of_N x
+  | None => if b =? 117 then (-2)%Z else (-1)%Z
+  end.
+Lemma link_unesc b : b < 256 -> g_json_unesc (Z.of_N b) = unesc_code b.
+Proof.
+  intros H. apply Z.eqb_eq.
+  apply (sweep256 (fun b => Z.eqb (g_json_unesc (Z.of_N b)) (unesc_code b))); [vm_compute; reflexivity|exact H].
+Qed.
+(* the control-character test is applied to an int holding the byte, the hex test to a (signed) char *)
+Lemma link_is_ctl b : b < 256 -> g_json_is_ctl (Z.of_N b) = (b <=? 31).
+Proof.
+  intros H. apply eqb_prop.
+  apply (sweep256 (fun b => eqb (g_json_is_ctl (Z.of_N b)) (b <=? 31))); [vm_compute; reflexivity|exact H].
+Qed.
+Lemma link_is_hex b : b < 256 -> g_json_is_hex (wraps 8 (Z.of_N b)) = is_hex b.
+Proof.
+  intros H. apply eqb_prop.
+  apply (sweep256 (fun b => eqb (g_json_is_hex (wraps 8 (Z.of_N b))) (is_hex b))); [vm_compute; reflexivity|exact H].
+Qed.
+
+(* ------------------------------------------------------------------------------------------ *)
+(* the writer layout: indent(out,c,tabs) / pad(out,tb) read from the source as statement codes,     *)
+(* interpreted here, equal the model's w_open / w_comma / w_colon / w_close for every indentation    *)
+(* ------------------------------------------------------------------------------------------ *)
+Fixpoint run_ev (evs : list Z) (c : N) (tabs : nat) (acc : list N) : list N * nat :=
+  match evs with
+  | [] => (acc, tabs)
+  | e :: r =>
+      if (e =? -1)%Z then run_ev r c tabs (acc ++ [c])
+      else if (e =? -2)%Z then run_ev r c (S tabs) acc
+      else if (e =? -3)%Z then run_ev r c (pred tabs) acc
+      else if (e =? -4)%Z then run_ev r c tabs (acc ++ repeat (Z.to_N g_json_pad_char) tabs)
+      else run_ev r c tabs (acc ++ [Z.to_N e])
+  end.
+(* indent with tabs >= 0 *)
+Definition g_indent (c : N) (tabs : nat) : list N * nat := run_ev (g_json_indent (Z.of_N c)) c tabs [].
+
+Lemma link_indent_open c n : c = 91 \/ c = 123 -> g_indent c n = (w_open c (Some n), S n).
+Proof. intros [H|H]; subst; reflexivity. Qed.
+Lemma link_indent_comma t : g_indent 44 t = (w_comma (Some t), t).
+Proof. reflexivity. Qed.
+Lemma link_indent_colon t : g_indent 58 t = (w_colon (Some t), t).
+Proof. reflexivity. Qed.
+Lemma link_indent_close c n : c = 93 \/ c = 125 -> g_indent c (S n) = (w_close c (Some n), n).
+Proof.
+  intros [H|H]; subst; unfold g_indent, w_close, pad; cbn [g_json_indent Z.of_N Z.eqb Pos.eqb run_ev pred app];
+    change (Z.to_N g_json_pad_char) with 9; rewrite <- !app_assoc; reflexivity.
+Qed.
